@@ -143,6 +143,15 @@ def run_case(case, policy=None, max_steps=20000):
                 keep = not name.startswith('once')      # a callback returning False is removed after its first run
                 io.registerReconnectCallback(
                     name, (lambda name=name, keep=keep: bool(log.add('cb', name=name, keep=keep)) and keep))
+            real_register = io.registerReconnectCallback
+
+            def register(name, func):       # callbacks registered later (the poll thread's trigger_polls) are logged too
+                def logged():
+                    r = func()
+                    log.add('cb', name=name, keep=bool(r))
+                    return r
+                real_register(name, logged)
+            io.registerReconnectCallback = register
             real_check = io.check_connection
 
             def check_connection():
@@ -309,7 +318,7 @@ def requests_for(case, events):
     base = {'p': 'C16', 'cfg': model_cfg(case), 'cbs': cbs, 'events': model_events(case, events)}
     judge = dict(base, k='judge')
     if case.get('realpoll'):
-        judge.update(pollname=CB_TRIGGER, mods=[0], within=us(1.0))
+        judge.update(pollname=0, mods=[0], within=us(1.0))     # anchor: the kept callback cb0 of the same callCallbacks pass
     return dict(base, k='replay'), judge
 
 
@@ -463,7 +472,7 @@ def catalogue():
 def realpoll_case(rng):
     return {'mode': 'string', 'io': {'timeout': 2, 'wait_before': 0, 'pollinterval': 3},
             'device': {'default': {'reply': '{cmd}{n}', 'delay': 0.05}, 'close': {'at': round(rng.uniform(0.5, 4.0), 2)},
-                       'refuse': rng.choice([[], [1], [1, 2]])},
+                       'close2': {'at': round(rng.uniform(0.5, 4.0), 2)}, 'refuse': rng.choice([[], [1], [1, 2]])},
             'callers': [[x for _ in range(rng.randint(5, 9)) for x in (['sleep', rng.choice([0.4, 1.1, 1.7])], ['comm', 'A'])]],
             'callbacks': ['cb0'], 'realpoll': 14.0}
 
